@@ -20,11 +20,21 @@
      always written by the header-only writer, its body is never read; hence no upstream reply reaches
      the `panicBody` sentinel of `handleUpgradeResponse` (and the order of the cases matters); every
      accepted reply is answered: a 101 that is no protocol switch with a 502 error response
+  G. the `host` label of the dialer's metrics (`addr2Host`): valid UTF-8 for EVERY dial address (what
+     prometheus requires, or the process dies), never longer than the address; a bounding step behind
+     the validity check keeps the guarantee when it cuts at encoding boundaries and loses it when it
+     cuts at a byte offset (kernel-checked witness: 253)
+  H. the handler variant (`proxy_handler.go` under net/http's server): a body torn upstream is never
+     finished by the server — no terminating chunk, fewer bytes than `Content-Length`, the connection
+     closed — exactly because the handler aborts on EVERY copy error; "return normally on
+     closed-connection-like errors" is refuted by a witness, at the level of observations and of bytes
 
   Not in the model (observed by the correspondence runs only): panic-freedom of net/http and
   crypto/tls on hostile bytes, TCP delivery, the scheduler.
 -/
 import FwdVerif.Lemmas.C12
+import FwdVerif.Lemmas.C12Label
+import FwdVerif.Lemmas.C12Handler
 
 namespace FwdVerif
 namespace C12
@@ -1082,6 +1092,252 @@ theorem c12_writer_order_matters :
         = .panicked := by
   with_unfolding_all decide
 
+
+/-! ## G. the dialer's metric label -/
+
+/-- the decoder `validUTF8` (= `utf8.ValidString`) decides the RFC 3629 predicate: the bytes are a
+    sequence of well-formed scalar encodings -/
+theorem c12_validUTF8_iff (l : Bytes) : validUTF8 l = true ↔ ValidUTF8 l := validUTF8_iff l
+
+example : validUTF8 [0x61, 0xC3, 0xA9, 0xE2, 0x82, 0xAC, 0xF0, 0x9F, 0x98, 0x80] = true ∧
+    validUTF8 [0x61, 0xC3] = false ∧ validUTF8 [0xED, 0xA0, 0x80] = false ∧ validUTF8 [0xC0, 0xAF] = false ∧
+    validUTF8 [0xF4, 0x90, 0x80, 0x80] = false ∧ validUTF8 [0x80] = false := by decide
+
+/-- whatever address the dialer is handed — whatever host a client managed to name — the label is valid
+    UTF-8: `WithLabelValues` does not panic -/
+theorem c12_dial_label_valid_utf8 (addr : Bytes) : ValidUTF8 (addr2Host addr) := by
+  unfold addr2Host
+  split
+  · exact (validUTF8_iff _).1 fixedLabels_valid.1
+  · split
+    · exact (validUTF8_iff _).1 fixedLabels_valid.2.1
+    · split
+      · exact (validUTF8_iff _).1 fixedLabels_valid.2.1
+      · split
+        · exact (validUTF8_iff _).1 fixedLabels_valid.2.2
+        · rename_i h
+          exact (validUTF8_iff _).1 (by simpa using h)
+
+-- a host that is not valid UTF-8 (F35), one that is, an address that does not split, localhost spelled out
+example : addr2Host [0x62, 0x61, 0x64, 0xF0, 0x3A, 0x38, 0x31] = bs "invalid" ∧
+    addr2Host [0x61, 0xC3, 0xA9, 0x3A, 0x38, 0x31] = [0x61, 0xC3, 0xA9] ∧
+    addr2Host [0x61, 0xC3, 0xA9] = bs "unknown" ∧
+    addr2Host (bs "[::ffff:127.0.0.1]:80") = bs "localhost" := by with_unfolding_all decide
+
+/-- the label is the host of the address or one of three fixed names: it is never longer than the
+    address (there is no other bound: `addr2Host` does not cut) -/
+theorem c12_dial_label_never_longer (addr : Bytes) : (addr2Host addr).length ≤ max addr.length 9 := by
+  unfold addr2Host
+  split
+  · rw [fixedLabels_length.1]; omega
+  · rename_i host port hsp
+    have := netSplitHostPort_host_length addr host port hsp
+    split
+    · rw [fixedLabels_length.2.1]; omega
+    · split
+      · rw [fixedLabels_length.2.1]; omega
+      · split
+        · rw [fixedLabels_length.2.2]; omega
+        · omega
+
+/-- a step behind the validity check keeps the guarantee exactly when it preserves validity -/
+theorem c12_label_step_preserving_validity (cut : Bytes → Bytes) (h : ∀ l, ValidUTF8 l → ValidUTF8 (cut l))
+    (addr : Bytes) : ValidUTF8 (boundedLabel cut addr) := h _ (c12_dial_label_valid_utf8 addr)
+
+/-- bounding the label at an encoding boundary: valid UTF-8 and at most `n` bytes for EVERY address and
+    every bound, and a label that fits is left alone -/
+theorem c12_label_rune_truncation_valid (n : Nat) (addr : Bytes) :
+    ValidUTF8 (boundedLabel (truncRunes n) addr) ∧ (boundedLabel (truncRunes n) addr).length ≤ n ∧
+      ((addr2Host addr).length ≤ n → boundedLabel (truncRunes n) addr = addr2Host addr) :=
+  ⟨truncRunes_valid n _ (c12_dial_label_valid_utf8 addr), truncRunesAux_length _ n _,
+    truncRunes_id n _ (c12_dial_label_valid_utf8 addr)⟩
+
+-- the cut at an encoding boundary keeps the 252 bytes in front of the `é`, the whole label when it fits
+set_option maxRecDepth 16384 in
+example : truncRunes 253 (List.replicate 252 97 ++ [0xC3, 0xA9, 46]) = List.replicate 252 97 ∧
+    truncRunes 254 (List.replicate 252 97 ++ [0xC3, 0xA9, 46]) = List.replicate 252 97 ++ [0xC3, 0xA9] ∧
+    truncRunes 300 (List.replicate 252 97 ++ [0xC3, 0xA9, 46]) = List.replicate 252 97 ++ [0xC3, 0xA9, 46] := by decide
+
+/-- 252 ASCII bytes, `é` (C3 A9), `.invalid:81` -/
+def straddlingAddr : Bytes :=
+  List.replicate 252 97 ++ [0xC3, 0xA9] ++ [46, 105, 110, 118, 97, 108, 105, 100, 58, 56, 49]
+
+set_option maxRecDepth 16384 in
+/-- validate, THEN cut at byte 253: the label of a 262-byte host whose `é` lies across the cut is valid
+    before the cut and ends in a lone lead byte after it — the value prometheus panics on -/
+theorem c12_label_byte_truncation_witness :
+    validUTF8 (addr2Host straddlingAddr) = true ∧ (addr2Host straddlingAddr).length = 262 ∧
+      (boundedLabel (truncBytes 253) straddlingAddr).length = 253 ∧
+      validUTF8 (boundedLabel (truncBytes 253) straddlingAddr) = false := by
+  with_unfolding_all decide
+
+/-- full clause for the byte cut — FALSE: -/
+def c12_label_byte_truncation_full : Prop := ∀ n addr, ValidUTF8 (boundedLabel (truncBytes n) addr)
+
+theorem c12_label_byte_truncation_full_false : ¬ c12_label_byte_truncation_full := by
+  intro h
+  have := (validUTF8_iff _).2 (h 253 straddlingAddr)
+  rw [c12_label_byte_truncation_witness.2.2.2] at this
+  exact absurd this (by decide)
+
+/-! ## H. the handler variant -/
+
+/-- faults before the reply head is complete are answered by the same `errorResponse` with the same
+    status and label as on the TCP server (net/http's server decides about the connection) -/
+theorem c12_handler_early_fault_same_verdict (f : Fault) (ex : Exchange) (k : ErrKind) (h : faultErr f ex = some k) :
+    (∃ st l, clientStream f ex = .errorResponse ex.id st l (!ex.reqClose) ∧
+        handlerStream f ex = .errorResponse ex.id st l (handlerKeeps ex)) ∨
+      (∃ s, clientStream f ex = .relayedRejection ex.id s true (!ex.reqClose) ∧
+        handlerStream f ex = .relayedRejection ex.id s true (handlerKeeps ex)) := by
+  simp only [clientStream, handlerStream, handlerStreamWith, h, errorObs]
+  cases errorWritten k with
+  | relay s => exact Or.inr ⟨s, rfl, rfl⟩
+  | generated s l => exact Or.inl ⟨s, l, rfl, rfl⟩
+
+example : handlerStream (.headCut 17 false false true) { id := 1, headLen := 47, framing := .chunked, bodyLen := 10 } =
+    .errorResponse 1 502 "unexpected_eof" true := by decide
+
+/-- THE CLAUSE for the handler variant: for every cut point of the body under every framing the server
+    can signal truncation with (Content-Length, chunked; a close-delimited origin body ended by a reset
+    included — it goes out chunked), the client reads a prefix and a close: no terminating chunk, fewer
+    bytes than declared, never a message a parser takes for complete — and nothing to reuse -/
+theorem c12_handler_torn_body_never_complete (ex : Exchange) (k lost : Nat) (r : Bool)
+    (hk : ex.kind ≠ .connect) (hfr : handlerFraming ex ≠ .eof) (hwf : (Fault.bodyCut k r lost).wf ex = true)
+    (herr : ex.framing = .eof → r = true) :
+    (handlerStream (.bodyCut k r lost) ex).parsesComplete = false ∧
+      (handlerStream (.bodyCut k r lost) ex).keepsAlive = false := by
+  obtain ⟨hs, hpc⟩ := handlerBodyCut_abort abortAlways ex k lost r hk hfr hwf herr ⟨rfl, rfl⟩
+  exact ⟨hpc, by rw [handlerStream, hs]; rfl⟩
+
+example : (Fault.bodyCut 5 true 0).wf { id := 1, headLen := 27, framing := .eof, bodyLen := 10 } = true ∧
+    handlerFraming { id := 1, headLen := 27, framing := .eof, bodyLen := 10 } ≠ .eof ∧
+    handlerStream (.bodyCut 5 true 0) { id := 1, headLen := 27, framing := .eof, bodyLen := 10 } =
+      .prefixThenClose 1 .chunked 5 false .fin := by decide
+
+/-- … and that is so exactly for the policies that abort on the two errors an upstream can cause: the
+    clause characterises what `writeResponse` may do with the error of the body copy -/
+theorem c12_handler_policy_iff (p : CopyPolicy) :
+    (∀ (ex : Exchange) (k lost : Nat) (r : Bool), ex.kind ≠ .connect → handlerFraming ex ≠ .eof →
+        (Fault.bodyCut k r lost).wf ex = true → (ex.framing = .eof → r = true) →
+        (handlerStreamWith p (.bodyCut k r lost) ex).parsesComplete = false) ↔
+      (p .upstreamEOF = .abort ∧ p .upstreamReset = .abort) := by
+  constructor
+  · intro h
+    have h1 := h { id := 1, headLen := 47, framing := .chunked, bodyLen := 10 } 5 0 false (by decide) (by decide) (by decide) (by decide)
+    have h2 := h { id := 1, headLen := 47, framing := .chunked, bodyLen := 10 } 5 0 true (by decide) (by decide) (by decide) (by decide)
+    constructor
+    · cases hp : p .upstreamEOF with
+      | abort => rfl
+      | returns =>
+        simp [handlerStreamWith, faultErr, handlerBodyCutWith, copyErrOf, hp, serverEnd, handlerFraming,
+          ClientObs.parsesComplete] at h1
+    · cases hp : p .upstreamReset with
+      | abort => rfl
+      | returns =>
+        simp [handlerStreamWith, faultErr, handlerBodyCutWith, copyErrOf, hp, serverEnd, handlerFraming,
+          ClientObs.parsesComplete] at h2
+  · intro hp ex k lost r hk hfr hwf herr
+    exact (handlerBodyCut_abort p ex k lost r hk hfr hwf herr hp).2
+
+/-- "the client went away, nobody is left to abort the response for": `isClosedConnError` also matches
+    what the UPSTREAM side of the copy reports (unexpected EOF, ECONNRESET); a handler that returns on
+    such errors has the server finish a body torn after 5 of 10 bytes — terminating chunk appended,
+    connection kept: truncated, complete to every parser, reusable.  Content-Length replies are still
+    caught by the server's own accounting. -/
+theorem c12_handler_return_normally_witness :
+    CopyErr.closedConnLike .upstreamEOF = true ∧ CopyErr.closedConnLike .upstreamReset = true ∧
+      (Fault.bodyCut 5 false 0).wf { id := 1, headLen := 47, framing := .chunked, bodyLen := 10 } = true ∧
+      handlerStreamWith returnOnClosedConn (.bodyCut 5 false 0) { id := 1, headLen := 47, framing := .chunked, bodyLen := 10 } =
+        .complete 1 .chunked 5 true ∧
+      handlerStreamWith returnOnClosedConn (.bodyCut 5 true 0) { id := 1, headLen := 47, framing := .chunked, bodyLen := 10 } =
+        .complete 1 .chunked 5 true ∧
+      cleanOutcome { id := 1, headLen := 47, framing := .chunked, bodyLen := 10 }
+        (handlerStreamWith returnOnClosedConn (.bodyCut 5 false 0) { id := 1, headLen := 47, framing := .chunked, bodyLen := 10 }) = false ∧
+      handlerStreamWith returnOnClosedConn (.bodyCut 5 false 0) { id := 1, headLen := 47, framing := .cl 10, bodyLen := 10 } =
+        .prefixThenClose 1 (.cl 10) 5 false .fin := by decide
+
+/-- truncation is detectable for every fault point (the analogue of `c12_truncation_detectable_partial`;
+    the hypothesis on close-delimited origin bodies is weaker here: only their regular end by FIN, which
+    IS the end of the message, is set aside — a reset is signalled) -/
+theorem c12_handler_truncation_detectable (f : Fault) (ex : Exchange) (hk : ex.kind ≠ .connect)
+    (hfr : handlerFraming ex ≠ .eof) (hwf : f.wf ex = true)
+    (heof : ∀ k l, f = .bodyCut k false l → ex.framing ≠ .eof)
+    (ht : (handlerStream f ex).truncated ex = true) : (handlerStream f ex).parsesComplete = false := by
+  have hk' : (ex.kind == ReqKind.connect) = false := by
+    cases h : ex.kind <;> simp_all
+  have hcl : ∀ n, ex.framing = .cl n → n = ex.bodyLen := by
+    intro n hn
+    simp only [Fault.wf, hn, Bool.and_eq_true, beq_iff_eq] at hwf
+    exact hwf.1
+  have hok : (handlerOk ex).truncated ex = false := by
+    unfold handlerOk handlerComplete
+    cases hkk : ex.kind <;> first
+      | exact absurd hkk hk
+      | (simp only []
+         cases hf : handlerFraming ex with
+         | eof => exact absurd hf hfr
+         | cl n => simp [ClientObs.truncated]
+         | chunked => simp [ClientObs.truncated])
+  cases hfe : faultErr f ex with
+  | some k =>
+    rcases c12_handler_early_fault_same_verdict f ex k hfe with ⟨st, l, _, h⟩ | ⟨s, _, h⟩ <;>
+      (rw [h] at ht; simp [ClientObs.truncated] at ht)
+  | none =>
+    cases f with
+    | bodyCut k r lost =>
+      have herr : ex.framing = .eof → r = true := by
+        intro hf
+        cases r with
+        | true => rfl
+        | false => exact absurd hf (heof k lost rfl)
+      exact (c12_handler_torn_body_never_complete ex k lost r hk hfr hwf herr).1
+    | connectReply rp =>
+      have : handlerStream (.connectReply rp) ex = handlerOk ex := by
+        cases rp <;> simp [handlerStream, handlerStreamWith, hfe, hk']
+      rw [this, hok] at ht
+      exact absurd ht (by simp)
+    | _ =>
+      all_goals
+        (simp only [handlerStream, handlerStreamWith, hfe] at ht
+         rw [hok] at ht
+         exact absurd ht (by simp))
+
+example : handlerFraming { id := 1, headLen := 47, framing := .chunked, bodyLen := 10 } ≠ .eof ∧
+    (Fault.bodyCut 3 true 1).wf { id := 1, headLen := 47, framing := .chunked, bodyLen := 10 } = true ∧
+    (handlerStream (.bodyCut 3 true 1) { id := 1, headLen := 47, framing := .chunked, bodyLen := 10 }).truncated
+      { id := 1, headLen := 47, framing := .chunked, bodyLen := 10 } = true ∧
+    (handlerStream (.bodyCut 3 true 1) { id := 1, headLen := 47, framing := .chunked, bodyLen := 10 }).parsesComplete = false := by
+  decide
+
+/-- the same at the level of bytes: whatever pieces the copy handed the server before it failed, the
+    chunks without the last-chunk are no complete body to the RFC 7230 reader … -/
+theorem c12_handler_aborted_chunked_never_parses (pieces : List Bytes) (h : ∀ p ∈ pieces, p ≠ []) :
+    bodyParsesComplete .chunked (handlerBodyWire .chunked pieces .abort) = false := by
+  simp [bodyParsesComplete, handlerBodyWire, decodeChunked_unterminated pieces h]
+
+/-- … under Content-Length fewer bytes than declared are none either, however the handler ends … -/
+theorem c12_handler_short_cl_never_parses (n : Nat) (pieces : List Bytes) (e : HandlerEnd)
+    (h : pieces.flatten.length < n) : bodyParsesComplete (.cl n) (handlerBodyWire (.cl n) pieces e) = false := by
+  simp only [bodyParsesComplete, handlerBodyWire]
+  exact decide_eq_false (by omega)
+
+example : bodyParsesComplete (.cl 10) (handlerBodyWire (.cl 10) [[104, 105], [33]] .returns) = false ∧
+    bodyParsesComplete .chunked (handlerBodyWire .chunked [[104, 105], [33]] .abort) = false ∧
+    bodyParsesComplete .chunked (handlerBodyWire .chunked [[104, 105], [33]] .returns) = true := by decide
+
+/-- … and when the handler returns the reader accepts the torn body as complete (`pieces.flatten`, however
+    little of the origin's body that is) and takes what follows on the connection for the next message -/
+theorem c12_handler_returned_chunked_parses (pieces : List Bytes) (h : ∀ p ∈ pieces, p ≠ []) (next : Bytes) :
+    Resp.decodeChunked (handlerBodyWire .chunked pieces .returns ++ next) = some (pieces.flatten, [], next) ∧
+      bodyParsesComplete .chunked (handlerBodyWire .chunked pieces .returns) = true := by
+  have h1 := decodeChunked_terminated pieces h next
+  have h2 := decodeChunked_terminated pieces h []
+  simp only [List.append_nil] at h2
+  refine ⟨by simpa [handlerBodyWire] using h1, ?_⟩
+  simp only [bodyParsesComplete, handlerBodyWire, h2, Option.isSome_some]
+
+example : handlerBodyWire .chunked [[104, 105]] .abort = [50, 13, 10, 104, 105, 13, 10] ∧
+    handlerBodyWire .chunked [[104, 105]] .returns = [50, 13, 10, 104, 105, 13, 10, 48, 13, 10, 13, 10] := by decide
 
 end C12
 end FwdVerif
